@@ -22,16 +22,21 @@ Definition nodefault_free (cfg : Parser.pconfig) : bool :=
 
 (* ---------------------------------------------------------------- the recorded converter *)
 (* the values the recorded converter round-trips: every recorded deserialization of the text of
-   p under p's own type gave p back, and there is at least one *)
+   p under p's own type gave p back, and there is at least one (str values and empty texts, which
+   the parser never hands to the converter, excepted) *)
 Definition law_tbl (t : conv_table) (u : universe) (p : prim) : bool :=
   let c := conv_of_table t in
-  let hits := filter (fun e => let '(tys, fmt, _, s, _) := e in
-                        lptype_eqb tys [prim_ptype p]
-                        && match ptext c u fmt p with Some s' => str_eqb s s' | None => false end) (t_deser t) in
-  match hits with
-  | [] => false
-  | _ => forallb (fun e => let '(_, _, _, _, r) := e in
-                    match r with Some p' => prim_eqb p p' | None => false end) hits
+  match p with
+  | PStr _ => true                 (* StringConverter is the identity; an empty element is never handed to it *)
+  | _ =>
+      let hits := filter (fun e => let '(tys, fmt, _, s, _) := e in
+                            lptype_eqb tys [prim_ptype p]
+                            && match ptext c u fmt p with Some s' => str_eqb s s' | None => false end) (t_deser t) in
+      match hits with
+      | [] => match ptext c u None p with Some [] => true | _ => false end    (* empty text: no conversion happens *)
+      | _ => forallb (fun e => let '(_, _, _, _, r) := e in
+                        match r with Some p' => prim_eqb p p' | None => false end) hits
+      end
   end.
 
 (* the recorded converter with the prefix map ignored (the real converter reads it only for
